@@ -338,7 +338,8 @@ func ChildMain(args []string) int {
 		res := &Result{Idx: idx, Case: c.ID, Obs: map[string]int64{}}
 		t := &T{Env: env, Rng: env.Rand(ck.ID + "|" + c.ID), res: res, dset: map[string]bool{}, jf: jf}
 		p, frame, text := Guard(func() { c.Run(t) })
-		if p && strings.HasPrefix(text, HarnessErrPrefix) {
+		if p && (strings.HasPrefix(text, HarnessErrPrefix) || frame == "unknown") {
+			// (frame "unknown": no library frame anywhere on the panicking stack - the harness itself failed)
 			// the harness could not observe what it needs (e.g. an unexported field it reads by name is gone):
 			// nothing was decided
 			t.Inconclusive("case %s: %s", c.ID, text)
